@@ -128,6 +128,19 @@ def check_scan(case):
                     p = FailureProbability(10 ** (math.log10(sm) - z * tot), ss).pf_norm_load(sm, ls)
                 nev += 1
                 ps.append(float(p))
+            # a load the object has not seen yet, first asked with truncating limits (a load limiter), then without: the
+            # answer for the untruncated load must be that of a fresh object
+            if line == "load-median-varies":
+                zq = zs[len(zs) // 2] + 0.37
+                Lq = 10 ** (math.log10(sm) + zq * tot)
+                kept.pf_norm_load(Lq, ls, upper_limit=math.log10(Lq) + 0.5 * ls)
+                kept.pf_norm_load(Lq, ls, lower_limit=math.log10(Lq) - 0.25 * ls)
+                again = float(kept.pf_norm_load(Lq, ls))
+                fresh = float(FailureProbability(sm, ss).pf_norm_load(Lq, ls))
+                nev += 4
+                if again != fresh:
+                    viol.append(("C15/pf_norm_load/answer-differs-after-questions-with-limits",
+                                 {"z": zq, "fresh_object": fresh, "kept_object_after_questions_with_limits": again}))
     except Exception as e:
         return [_raised(e, "pf_norm_load")], nev, ()
     for z, p in zip(zs, ps):
